@@ -13,7 +13,8 @@ CLAIMS = {
                 "node (progress, what repair G guarantees) while a fitting batch is provably a fixed point (the repaired livelock); every "
                 "round whose batch exceeds the capacity strictly decreases the measure sum(size-1) of the queued buckets, so the loop "
                 "(and the whole build) provably never exhausts a fuel above that measure: a run can only fail to finish through a batch "
-                "that fits, i.e. the repaired livelock (C14_round_measure, C14_terminates_above_cap, C14_build_terminates_above_cap). "
+                "that fits, i.e. the repaired livelock (C14_round_measure, C14_terminates_above_cap, C14_build_terminates_above_cap); the "
+                "measure is bounded in closed form by trees x items (C14_loop_measure_bound, C14_build_terminates_explicit). "
                 "Real crate: memory in {0, a page, ~items, ample, unset} x item counts around the 200-item minimum x split_after on both "
                 "sides of the batch, first and incremental builds, hang detection by a poll limit.",
         "note": COMMON_NOTE + " What stays probabilistic in the real code is inside make_tree (a split search that keeps every item on one side recurses on the same set); the model bounds it by the finite stream of recorded normals.",
